@@ -136,7 +136,7 @@ def hitsound_copy(osu_src: OsuMap, osu_tgt: OsuMap) -> OsuMap:
                     osu_tgt.samples = osu_tgt.samples.append(
                         OsuSample(offset=offset, sample_file=file, volume=volume)
                     )
-                    break
+                    continue
                 log.debug(f"Slotted Hitsound {file} at {offset} vol {volume}")
                 df.at[slot_indexes[slot], "hitsound_file"] = file
                 df.at[slot_indexes[slot], "volume"] = volume if volume > 0 else 0
